@@ -60,7 +60,8 @@ CLAUSES = {
     ('F-02a', 'C03'): {37},
     # calibrated on the thorough tier of the unchanged tree (every failure the finding produced there had this clause)
     ('F-02a', 'C02'): {1}, ('F-02b', 'C02'): {2}, ('F-02c', 'C02'): {2},
-    ('F-02b', 'C04'): {32},          # a restarted blocked customer: service start after its (earlier) exit stamp
+    ('F-02b', 'C04'): {32},
+    ('F-02b', 'C12'): {69},          # the restarted blocked customer starts in a shift with zero servers          # a restarted blocked customer: service start after its (earlier) exit stamp
 }
 
 
